@@ -239,14 +239,16 @@ func (l *LSTM) Apply(inputs []tensor.Tensor) ([]tensor.Tensor, error) {
 		return nil, err
 	}
 
-	outputMap := map[string]tensor.Tensor{
-		"Y": Y, "Y_h": Yh, "Y_c": Yc,
+	// The results are bound to the output names of the node by position (Y, Y_h, Y_c),
+	// whatever those names are; trailing outputs may be omitted.
+	allOutputs := []tensor.Tensor{Y, Yh, Yc}
+
+	nOutputs := len(l.outputs)
+	if nOutputs > len(allOutputs) {
+		nOutputs = len(allOutputs)
 	}
 
-	result := []tensor.Tensor{}
-	for _, outputName := range l.outputs {
-		result = append(result, outputMap[outputName])
-	}
+	result := allOutputs[:nOutputs]
 
 	return result, nil
 }
